@@ -62,7 +62,7 @@ def run_case(args):
 def main():
     global PROG, CONSTS
     thorough = vlib.TIER == "thorough"
-    rep = vlib.Report("C08", level="exploration")
+    rep = vlib.Report("C08", level="fault_enumeration")
     prog, params, fns = T.build(vlib.workdir()); PROG = (prog, params); CONSTS = units.cfitsio_constants()
     c06.PROG = PROG; c06.CONSTS = CONSTS
     for n in ("write_fits", "write_fits_core", "read_fits", "read_fits_core", "read_fits_core_body"):
